@@ -341,13 +341,14 @@ func (r *Reconciler) reconcileValidate(ctx context.Context, proposal *configapi.
 			values = append(values, changeValue)
 		}
 
+		// A configuration that cannot be rendered for the model (it holds a value no JSON document can carry) is
+		// invalid: rendering is a function of the values alone, trying again cannot succeed
 		jsonTree, err := tree.BuildTree(values, true)
-		if err != nil {
-			return controller.Result{}, err
+		if err == nil {
+			err = modelPlugin.Validate(ctx, jsonTree)
 		}
 
 		// If validation fails any target, mark the Proposal FAILED.
-		err = modelPlugin.Validate(ctx, jsonTree)
 		if err != nil {
 			log.Warnf("Failed validating Proposal '%s'", proposal.ID, err)
 			proposal.Status.Phases.Validate.State = configapi.ProposalValidatePhase_FAILED
